@@ -277,6 +277,33 @@ def t_wiring_ctor(T, tier):
                           z3.BoolVal(isinstance(md, SObj) and md is not g0.fields['metadata'] and md.fields['_validate_fn'].selfv is g))
     T.explore(w, run2, '__init__/from-another-grid')
 
+    def run3(it):
+        # the ZINC reader's grid builder (parse action of every grid, nested ones included - a nested grid may declare a LOWER version than the
+        # document around it, whose grammar admitted its cells): header values and every row cell go through the new grid's validation
+        del seen[:]
+        v1, v2, v3, v4 = (it.ctx.fresh(n, V) for n in ('mv', 'cmv', 'cell1', 'cell2'))
+        zp = extract.module('hszinc.zincparser')
+        w.note_unit(zp, '_gen_grid', zp.functions['_gen_grid'])
+        import collections
+        col_meta = collections.OrderedDict([('c1', {'t': SVal(v2)}), ('c2', {})])
+        toks = [{'ver': 'VERSION', 'm': SVal(v1)}, col_meta, [[SVal(v3), SVal(v4)]]]
+        g = it.call(w.function('hszinc.zincparser', '_gen_grid'), [toks])
+        ok = isinstance(g, SObj) and g.cls.name == 'Grid'
+        it.ctx.oblige('_gen_grid/ensures.returns_grid', z3.BoolVal(ok))
+        if not ok:
+            return
+        got = [a[1].term for a in seen if len(a) == 2 and isinstance(a[1], SVal) and a[0] is g]
+        rows_seen = [a[1] for a in seen if len(a) == 2 and a[0] is g and isinstance(a[1], dict)]
+        cells = []
+        for r in rows_seen:
+            cells += [x.term for x in r.values() if isinstance(x, SVal)]
+        it.ctx.oblige('_gen_grid/ensures.header_values_validated_by_the_new_grid', z3.And(*[z3.Or(*[t == x for t in got]) if got else z3.BoolVal(False) for x in (v1, v2)]))
+        it.ctx.oblige('_gen_grid/ensures.every_row_cell_validated_by_the_new_grid',
+                      z3.And(*[z3.Or(*[t == x for t in got + cells]) if (got + cells) else z3.BoolVal(False) for x in (v3, v4)]))
+        rws = g.fields['_row']
+        it.ctx.oblige('_gen_grid/ensures.one_row_stored', z3.BoolVal(isinstance(rws, list) and len(rws) == 1))
+    T.explore(w, run3, '_gen_grid')
+
 
 # ------------------------------------------------------------------ writers: refuse 3.0-only kinds iff version < 3.0
 LEAVES = ['dump_bool', 'dump_ref', 'dump_bin', 'dump_xstr', 'dump_uri', 'dump_str', 'dump_date_time', 'dump_time', 'dump_date', 'dump_coord',
